@@ -98,6 +98,10 @@ func Run(j *job.Job, s *job.Sink) {
 		var mods []*mod
 		var all []*ident
 		namePool := []string{"a", "b", "c", "d", "e", "f", "g", "h"}
+		if c%3 == 1 {
+			// names that differ only in the case of their letters are different names
+			namePool = []string{"a", "A", "b", "B", "ab", "aB", "Ab", "AB"}
+		}
 		if c%200 == 7 {
 			// a long derivation chain (130-500 identities, spread over two modules): every
 			// identity lists exactly the ones below it, however deep that is
